@@ -109,7 +109,12 @@ func main() {
 				pidIn = port
 			}
 			p := rnd(r, l)
-			sq, err := rc.Send(syscall.NetlinkMessage{Header: syscall.NlMsghdr{Type: ty, Flags: flags, Pid: pidIn}, Data: p})
+			// the caller's own Seq and Len fields are not the transport's business: whatever they hold, Send numbers the request itself
+			seqIn, lenIn := uint32(0), uint32(0)
+			if r.Chance(1, 3) {
+				seqIn, lenIn = sx.Pick(r, []uint32{1, 2, 3, 7, 0xffffffff, uint32(r.Next())}), sx.Pick(r, []uint32{0, 16, 1, uint32(r.Next())})
+			}
+			sq, err := rc.Send(syscall.NetlinkMessage{Header: syscall.NlMsghdr{Type: ty, Flags: flags, Pid: pidIn, Seq: seqIn, Len: lenIn}, Data: p})
 			seqs = append(seqs, fmt.Sprint(sq))
 			if err != nil {
 				out.Case(fmt.Sprintf("NSendFail %d", l), map[string]interface{}{"route_send_payload_len": l, "send_error": err.Error()}, "send-refused", true)
